@@ -173,6 +173,20 @@ theorem source_limits :
     minVersion_BIP34Height = 2 ∧ minVersion_BIP66Height = 3 ∧ minVersion_BIP65Height = 4 := by
   decide
 
+/-- the activation heights and pow limit installed by NewChainExt (regenerated from lib/chain/chain.go on every
+    run) are those of the three networks: BIP34/BIP65/BIP66/CSV/SegWit/Taproot heights of Bitcoin Core's
+    chainparams for mainnet and testnet3, everything from block 1 on testnet4, pow limit 0x1d00ffff = 2^224-1
+    rounded to the compact precision. -/
+theorem activation_heights :
+    (mainnet_BIP34Height, mainnet_BIP65Height, mainnet_BIP66Height, mainnet_Enforce_CSV, mainnet_Enforce_SEGWIT, mainnet_Enforce_Taproot)
+      = (227931, 388381, 363725, 419328, 481824, 709632) ∧
+    (testnet3_BIP34Height, testnet3_BIP65Height, testnet3_BIP66Height, testnet3_Enforce_CSV, testnet3_Enforce_SEGWIT, testnet3_Enforce_Taproot)
+      = (21111, 581885, 330776, 770112, 834624, 2011968) ∧
+    (testnet4_BIP34Height, testnet4_BIP65Height, testnet4_BIP66Height, testnet4_Enforce_CSV, testnet4_Enforce_SEGWIT, testnet4_Enforce_Taproot)
+      = (1, 1, 1, 1, 1, 1) ∧
+    mainnet_MaxPOWBits = 0x1d00ffff ∧ MaxPOWValue = 2^224 - 1 ∧ getCompact (MaxPOWValue : Int) = mainnet_MaxPOWBits := by
+  decide
+
 /-- what "every transaction passes" means: CheckTransactions returns no error only if every transaction has
     inputs and outputs, is not oversized, has output values and running totals within MAX_MONEY, has a
     2..100-byte script if it is a coinbase and no null prevout otherwise, and is final. -/
